@@ -70,12 +70,17 @@ def BS.avail (s : BS) : Nat := (s.win.length - s.rpos) + s.src.length
 
 def skipWs (B : Nat) (s : BS) : BS := skipWsF B (s.avail + 1) s
 
+/-- `--line_` on the `unsigned` line counter (match_basic_types.h:90): at 0 it wraps to `2^32 - 1`
+    (only reachable by ungetting a newline that was never extracted).  The model keeps a representative
+    of the counter modulo `2^32`: `++line_` stays `+ 1`, and `line()` is observed modulo `2^32` (`step`). -/
+def decLine (l : Nat) : Nat := if l = 0 then 4294967295 else l - 1
+
 /-- `unget(c)`. -/
 def unget (s : BS) (c : Nat) : Bool × BS :=
   if s.rpos == 0 then (false, s) else
   let r := s.rpos - 1
   (true, { s with win := s.win.set r c, rpos := r,
-                  line := if c == 10 then s.line - 1 else s.line,
+                  line := if c == 10 then decLine s.line else s.line,
                   viol := s.viol || decide (s.win.length ≤ r) })
 
 /-- `strncmp(w, buf_ + rpos_, |w|) == 0` for a NUL-free `w`: all of `w` is in the window at `rpos`.
@@ -192,7 +197,7 @@ def step (B : Nat) (s : BS) : Op → Obs × BS
   | .matchInt n => let (r, s') := matchInt B s n; (.int r, s')
   | .copy n => let (bs, s') := copy B s n; (.bytes bs, s')
   | .atEnd => (.bool s.atEnd, s)
-  | .line => (.nat s.line, s)
+  | .line => (.nat (s.line % 4294967296), s)
 
 def run (B : Nat) : BS → List Op → List Obs
   | _, [] => []
